@@ -65,6 +65,29 @@ def _stmt(n):
     return n
 
 
+def _positive_distance_is_positive(ctx, repo) -> bool:
+    """_positive_distance(compute) > 0 and not NaN for a compute() that returns 0, a negative, NaN, a positive, or raises."""
+    fn = repo.try_func(TR, "_positive_distance")
+    if fn is None:
+        return False
+    ctx.analysed(fn)
+
+    def raising(name):
+        def f():
+            raise peval.Raises(name, "probe")
+        return f
+
+    probes = [lambda: 0.0, lambda: -3.0, lambda: NAN, lambda: 4.0, lambda: math.inf, raising("OverflowError"), raising("TypeError"), raising("ValueError")]
+    try:
+        for pr in probes:
+            r = peval.Interp().run_function(fn, [pr], {}, repo.module(TR))
+            if not (isinstance(r, float) and r > 0.0):
+                return False
+    except (peval.Raises, peval.Undecided):
+        return False
+    return True
+
+
 def check(ctx) -> None:
     repo = ctx.repo
     ctx.rule("C04.helper-op", "each distance helper returns 0.0 only in the true branch of the operator it is named for, applied to (val1, val2) in that order (or in a handler of the operator's own TypeError); every other return is non-zero", floor=8)
@@ -109,6 +132,7 @@ def check(ctx) -> None:
             arms[norm(c.pattern.value).split(".")[-1]] = c
     params = [a.arg for a in ecp.args.args]
     va, vb = params[1], params[2]
+    wrapped: set[str] = set()
     for m in members:
         if m == "EXC_MATCH":
             continue
@@ -120,15 +144,49 @@ def check(ctx) -> None:
         got = None
         if asg is not None and [norm(t) for t in asg.targets[0].elts] == ["distance_true", "distance_false"]:
             got = []
-            for v in asg.value.elts:
+            for pos, v in enumerate(asg.value.elts):
                 if isinstance(v, ast.Call) and isinstance(v.func, ast.Name) and len(v.args) == 2:
                     order = "".join("a" if norm(x) == va else "b" if norm(x) == vb else "?" for x in v.args)
                     got.append((v.func.id, order))
+                elif pos == 1 and isinstance(v, ast.Call) and norm(v.func) == "_complement" and len(v.args) == 3 and isinstance(v.args[0], ast.Name):
+                    # containment wrapper around the distance to the outcome that is not evaluated: _complement(helper, x, y)
+                    order = "".join("a" if norm(x) == va else "b" if norm(x) == vb else "?" for x in v.args[1:])
+                    got.append((v.args[0].id, order))
+                    wrapped.add(m)
         want = TABLE.get(m)
         if want is None:
             ctx.undecide("C04.complement", arm, f"compare kind {m} is not in the checker's table")
             continue
         ctx.check("C04.complement", asg or arm, got is not None and tuple(got) == want, f"{m}: (true, false) distances are {got}, the complement pair is {want}: the zero distance no longer marks the outcome taken", what=f"{m}: {want}", stmt=f"[{m}]")
+
+    if wrapped:
+        # the wrapper must be transparent: helper(x, y) with the arguments in order, infinite (never zero, never raising) otherwise
+        comp = repo.try_func(TR, "_complement")
+        ok, why = comp is not None, "`_complement` is not defined in the tracer module"
+        if comp is not None:
+            ctx.analysed(comp)
+            seen = []
+
+            def probe(x, y):
+                seen.append((x, y))
+                return 2.5
+
+            def boom(x, y):
+                raise peval.Raises("TypeError", "probe")
+
+            try:
+                r1 = peval.Interp().run_function(comp, [probe, "L", "R"], {}, repo.module(TR))
+                r2 = peval.Interp().run_function(comp, [boom, "L", "R"], {}, repo.module(TR))
+                ok = r1 == 2.5 and seen == [("L", "R")] and r2 == math.inf
+                why = f"_complement(helper, L, R) evaluated helper{seen} -> {r1!r}; with a raising helper -> {r2!r} (expected 2.5 and inf)"
+            except peval.Raises as exc:
+                ok, why = False, f"_complement lets {exc.name} escape into the instrumented module"
+            except peval.Undecided as exc:
+                ok, why = None, str(exc)
+        if ok is None:
+            ctx.undecide("C04.complement", comp, why)
+        else:
+            ctx.check("C04.complement", comp or mt, ok, why, what="_complement forwards (helper, x, y) in order and maps a failure to an infinite distance", stmt="[_complement]")
 
     # ------------------------------------------------------------------ C04.args
     um = repo.func(TR, "ExecutionTracer._update_metrics")
@@ -192,6 +250,8 @@ def check(ctx) -> None:
                 v = n.stmt.value
                 t = norm(v)
                 nonzero = (isinstance(v, ast.Constant) and isinstance(v.value, (int, float)) and v.value > 0) or t in ("inf", "math.inf")
+                if not nonzero and isinstance(v, ast.Call) and norm(v.func) == "_positive_distance":
+                    nonzero = _positive_distance_is_positive(ctx, repo)
                 if not nonzero and t in ("len(value)", "float(abs(value))"):
                     # under `if value:` a Sized value has len > 0 and a number is non-zero
                     anc = parent(n.stmt)
